@@ -1,0 +1,406 @@
+//go:build verif
+
+package object
+
+// Contracts for package object, checked by /verif/govc (see /verif/DESIGN.md).
+// Comment-only except for the proof harnesses at the end.
+
+//@ spec inrange(i, n) = -n <= i && i < n
+//@ spec norm(i, n) = ite(i >= 0, i, i + n)
+
+// ---- assumed helper contracts (bodies loop over variadic arguments / call fmt) -------------------
+
+//@ func Errorf
+//@ trusted
+//@ modifies nothing
+//@ ensures result != nil && fresh(result)
+
+//@ func TypeErrorf
+//@ trusted
+//@ modifies nothing
+//@ ensures result != nil && fresh(result)
+
+// ---- index arithmetic (bit-exact) --------------------------------------------------------------
+
+//@ func ResolveIndex
+//@ props C16
+//@ mode bv
+//@ requires size >= 0
+//@ ensures[C16.idx.ok]  err == nil ==> 0 <= result && result < size
+//@ ensures[C16.idx.val] err == nil ==> result == norm(idx, size)
+//@ ensures[C16.idx.err] err != nil <==> !inrange(idx, size)
+
+// ---- lists ---------------------------------------------------------------------------------------
+
+//@ func (*List).Pop
+//@ props C16
+//@ requires ls != nil
+//@ modifies ls.items, elems(ls.items)
+//@ let n = old(len(ls.items))
+//@ let i = norm(index, n)
+//@ ensures[C16.pop.len]    inrange(index, n) ==> len(ls.items) == n-1
+//@ ensures[C16.pop.res]    inrange(index, n) ==> result == old(ls.items[i])
+//@ ensures[C16.pop.prefix] inrange(index, n) ==> forall(k, 0, i, ls.items[k] == old(ls.items[k]))
+//@ ensures[C16.pop.suffix] inrange(index, n) ==> forall(k, i, n-1, ls.items[k] == old(ls.items[k+1]))
+//@ ensures[C16.pop.err]    !inrange(index, n) ==> ls.items == old(ls.items) && typeof(result) == *Error
+
+//@ spec EQ(a, b) = uf("EQ", bool, a, b)
+
+//@ func Equals
+//@ trusted
+//@ modifies nothing
+//@ ensures result == EQ(a, b)
+
+//@ func (*List).Append
+//@ props C16
+//@ overflow
+//@ requires ls != nil
+//@ modifies ls.items, elems(ls.items)
+//@ let n = old(len(ls.items))
+//@ ensures[C16.append.len]  len(ls.items) == n+1
+//@ ensures[C16.append.keep] forall(k, 0, n, ls.items[k] == old(ls.items[k]))
+//@ ensures[C16.append.last] ls.items[n] == obj
+
+//@ func (*List).Extend
+//@ props C16
+//@ requires ls != nil && other != nil
+//@ modifies ls.items, elems(ls.items)
+//@ let n = old(len(ls.items))
+//@ let m = old(len(other.items))
+//@ ensures[C16.extend.len]  len(ls.items) == n+m
+//@ ensures[C16.extend.keep] forall(k, 0, n, ls.items[k] == old(ls.items[k]))
+//@ ensures[C16.extend.tail] forall(k, 0, m, ls.items[n+k] == old(other.items[k]))
+
+//@ func (*List).Clear
+//@ props C16
+//@ requires ls != nil
+//@ modifies ls.items
+//@ ensures[C16.clear] len(ls.items) == 0
+
+//@ func (*List).Insert
+//@ props C16
+//@ requires ls != nil
+//@ modifies ls.items, elems(ls.items)
+//@ let n = old(len(ls.items))
+//@ let j = ite(index < 0, ite(index + n < 0, 0, index + n), ite(index > n, n, index))
+//@ ensures[C16.insert.len]    len(ls.items) == n+1
+//@ ensures[C16.insert.prefix] forall(k, 0, j, ls.items[k] == old(ls.items[k]))
+//@ ensures[C16.insert.at]     ls.items[j] == obj
+//@ ensures[C16.insert.suffix] forall(k, j+1, n+1, ls.items[k] == old(ls.items[k-1]))
+
+//@ func (*List).Copy
+//@ props C16
+//@ requires ls != nil
+//@ modifies nothing
+//@ ensures[C16.copy.fresh] fresh(result) && fresh(result.items) && arr(result.items) != arr(ls.items)
+//@ ensures[C16.copy.len]   len(result.items) == len(ls.items)
+//@ ensures[C16.copy.elems] forall(k, 0, len(ls.items), result.items[k] == ls.items[k])
+
+//@ func (*List).Reverse
+//@ props C16
+//@ requires ls != nil
+//@ modifies elems(ls.items)
+//@ let n = len(ls.items)
+//@ invariant 1: 0 <= i && j == n-1-i && i <= j+1
+//@ invariant 1: forall(k, 0, n, ls.items[k] == ite(k < i || k > j, old(ls.items[n-1-k]), old(ls.items[k])))
+//@ ensures[C16.reverse] forall(k, 0, n, ls.items[k] == old(ls.items[n-1-k]))
+//@ ensures[C16.reverse.hdr] ls.items == old(ls.items)
+
+//@ func (*List).GetItem
+//@ props C16
+//@ requires ls != nil
+//@ modifies nothing
+//@ let n = len(ls.items)
+//@ let isInt = typeof(key) == *Int
+//@ let ix = key.(*Int).value
+//@ ensures[C16.getitem.ok]  isInt && inrange(ix, n) ==> result1 == nil && result0 == ls.items[norm(ix, n)]
+//@ ensures[C16.getitem.err] !(isInt && inrange(ix, n)) ==> result1 != nil && result0 == nil
+
+//@ func (*List).SetItem
+//@ props C16
+//@ requires ls != nil
+//@ modifies elems(ls.items)
+//@ let n = len(ls.items)
+//@ let isInt = typeof(key) == *Int
+//@ let ix = key.(*Int).value
+//@ ensures[C16.setitem.ok]   isInt && inrange(ix, n) ==> result == nil && ls.items[norm(ix, n)] == value
+//@ ensures[C16.setitem.rest] isInt && inrange(ix, n) ==> forall(k, 0, n, k != norm(ix, n) ==> ls.items[k] == old(ls.items[k]))
+//@ ensures[C16.setitem.err]  !(isInt && inrange(ix, n)) ==> result != nil && forall(k, 0, n, ls.items[k] == old(ls.items[k]))
+
+//@ func (*List).DelItem
+//@ props C16
+//@ requires ls != nil
+//@ modifies ls.items, elems(ls.items)
+//@ let n = old(len(ls.items))
+//@ let isInt = typeof(key) == *Int
+//@ let ix = key.(*Int).value
+//@ let i = norm(ix, n)
+//@ ensures[C16.delitem.len]    isInt && inrange(ix, n) ==> result == nil && len(ls.items) == n-1
+//@ ensures[C16.delitem.prefix] isInt && inrange(ix, n) ==> forall(k, 0, i, ls.items[k] == old(ls.items[k]))
+//@ ensures[C16.delitem.suffix] isInt && inrange(ix, n) ==> forall(k, i, n-1, ls.items[k] == old(ls.items[k+1]))
+//@ ensures[C16.delitem.err]    !(isInt && inrange(ix, n)) ==> result != nil && ls.items == old(ls.items)
+
+//@ func (*List).Index
+//@ props C16
+//@ requires ls != nil
+//@ modifies nothing
+//@ let n = len(ls.items)
+//@ invariant 1: forall(q, 0, iter, !EQ(obj, ls.items[q]))
+//@ ensures[C16.index.found] result >= 0 ==> result < n && EQ(obj, ls.items[result]) && forall(q, 0, result, !EQ(obj, ls.items[q]))
+//@ ensures[C16.index.none]  result < 0 ==> result == -1 && forall(q, 0, n, !EQ(obj, ls.items[q]))
+
+//@ func (*List).Contains
+//@ props C16 C15
+//@ requires ls != nil
+//@ modifies nothing
+//@ let n = len(ls.items)
+//@ invariant 1: forall(q, 0, iter, !EQ(ls.items[q], item))
+//@ ensures[C15.contains.yes] result == True ==> exists(q, 0, n, EQ(ls.items[q], item))
+//@ ensures[C15.contains.no]  result == False ==> forall(q, 0, n, !EQ(ls.items[q], item))
+//@ ensures[C15.contains.bool] result == True || result == False
+
+// ---- pure interface methods (assumed: every implementation only reads) -----------------------------
+
+//@ func (Object).Type
+//@ trusted
+//@ modifies nothing
+//@ ensures (result == NIL) == (typeof(self) == *NilType)
+
+//@ func (Object).Inspect
+//@ trusted
+//@ modifies nothing
+
+// ---- package state established by the initialisers (init-only, see C09) -----------------------------
+
+//@ global True != nil && False != nil && Nil != nil && True != False && True.value && !False.value
+
+// ---- C15: algebraic laws of ==, ordering and hashing, proved over the real method bodies ---------
+// Each harness is a loop-free function whose body calls the real methods; govc case-splits the
+// symbolic operands over the dispatch set, inlines the method bodies and decides the law for all
+// field values (64-bit vectors, IEEE doubles, strings).
+
+//@ spec scalar(x) = oneof(typeof(x), *Int, *Float, *Byte, *String, *Bool, *NilType) && ref(x) != nil && (typeof(x) == *Float ==> !isnan(x.(*Float).value))
+//@ spec numeric(x) = oneof(typeof(x), *Int, *Float, *Byte) && ref(x) != nil && (typeof(x) == *Float ==> !isnan(x.(*Float).value))
+//@ spec ordered(x) = oneof(typeof(x), *Int, *Float, *Byte, *String, *Bool) && ref(x) != nil && (typeof(x) == *Float ==> !isnan(x.(*Float).value))
+
+func verifCmp(a, b Object) (int, bool) {
+	c, ok := a.(Comparable)
+	if !ok {
+		return 0, false
+	}
+	v, err := c.Compare(b)
+	return v, err == nil
+}
+
+func verifEqRefl(a Object) bool { return Equals(a, a) }
+
+//@ func verifEqRefl
+//@ props C15
+//@ mode bv
+//@ dispatch *Int *Float *Byte *String *Bool *NilType
+//@ expand Equals
+//@ requires scalar(a)
+//@ ensures[C15.eq.refl] result
+
+func verifEqSym(a, b Object) bool { return Equals(a, b) == Equals(b, a) }
+
+//@ func verifEqSym
+//@ props C15
+//@ mode bv
+//@ dispatch *Int *Float *Byte *String *Bool *NilType
+//@ expand Equals
+//@ requires scalar(a) && scalar(b)
+//@ ensures[C15.eq.sym] result
+
+func verifEqTrans(a, b, c Object) bool { return !(Equals(a, b) && Equals(b, c)) || Equals(a, c) }
+
+//@ func verifEqTrans
+//@ props C15
+//@ mode bv
+//@ dispatch *Int *Float *Byte *String *Bool *NilType
+//@ expand Equals
+//@ requires scalar(a) && scalar(b) && scalar(c) && typeof(a) == typeof(b) && typeof(b) == typeof(c)
+//@ ensures[C15.eq.trans] result
+
+func verifCmpTotal(a, b Object) bool {
+	x, ok := verifCmp(a, b)
+	return ok && (x == -1 || x == 0 || x == 1)
+}
+
+//@ func verifCmpTotal
+//@ props C15
+//@ mode bv
+//@ dispatch *Int *Float *Byte *String *Bool
+//@ requires ordered(a) && ordered(b) && typeof(a) == typeof(b)
+//@ ensures[C15.cmp.total] result
+
+func verifCmpAntisym(a, b Object) bool {
+	x, ok1 := verifCmp(a, b)
+	y, ok2 := verifCmp(b, a)
+	return ok1 && ok2 && x == -y
+}
+
+//@ func verifCmpAntisym
+//@ props C15
+//@ mode bv
+//@ dispatch *Int *Float *Byte
+//@ split a b
+//@ requires numeric(a) && numeric(b)
+//@ ensures[C15.cmp.antisym] result
+
+func verifCmpAntisymSame(a, b Object) bool {
+	x, ok1 := verifCmp(a, b)
+	y, ok2 := verifCmp(b, a)
+	return ok1 && ok2 && x == -y
+}
+
+//@ func verifCmpAntisymSame
+//@ props C15
+//@ mode bv
+//@ dispatch *String *Bool
+//@ requires oneof(typeof(a), *String, *Bool) && ref(a) != nil && ref(b) != nil && typeof(a) == typeof(b)
+//@ ensures[C15.cmp.antisym.same] result
+
+func verifCmpTrans(a, b, c Object) bool {
+	x, _ := verifCmp(a, b)
+	y, _ := verifCmp(b, c)
+	z, _ := verifCmp(a, c)
+	return !(x <= 0 && y <= 0) || z <= 0
+}
+
+//@ func verifCmpTrans
+//@ props C15
+//@ mode bv
+//@ dispatch *Int *Float *Byte *String *Bool
+//@ split a
+//@ requires ordered(a) && ordered(b) && ordered(c) && typeof(a) == typeof(b) && typeof(b) == typeof(c)
+//@ ensures[C15.cmp.trans] result
+
+func verifCmpZeroIffEq(a, b Object) bool {
+	x, ok := verifCmp(a, b)
+	return ok && ((x == 0) == Equals(a, b))
+}
+
+//@ func verifCmpZeroIffEq
+//@ props C15
+//@ mode bv
+//@ dispatch *Int *Float *Byte *String *Bool
+//@ expand Equals
+//@ requires ordered(a) && ordered(b) && (typeof(a) == typeof(b) || (numeric(a) && numeric(b)))
+//@ ensures[C15.cmp.agrees] result
+
+func verifHashAgree(a, b Object) bool {
+	ha, ok1 := a.(Hashable)
+	hb, ok2 := b.(Hashable)
+	return ok1 && ok2 && (Equals(a, b) == (ha.HashKey() == hb.HashKey()))
+}
+
+//@ func verifHashAgree
+//@ props C15
+//@ mode bv
+//@ dispatch *Int *Float *Byte *String *Bool *NilType
+//@ expand Equals
+//@ requires scalar(a) && scalar(b) && typeof(a) == typeof(b)
+//@ ensures[C15.hash.agree] result
+
+// ---- maps: every operation against the finite-map model (dom, val), whole-map postconditions -----------------
+
+//@ spec mhas(m, k) = haskey(m.items, k)
+//@ spec mval(m, k) = m.items[k]
+
+//@ func (*Map).Get
+//@ props C16
+//@ requires m != nil
+//@ modifies nothing
+//@ ensures[C16.map.get] result == ite(mhas(m, key), mval(m, key), Nil)
+
+//@ func (*Map).GetWithDefault
+//@ props C16
+//@ requires m != nil
+//@ modifies nothing
+//@ ensures[C16.map.getdefault] result == ite(mhas(m, key), mval(m, key), defaultValue)
+
+//@ func (*Map).Set
+//@ props C16
+//@ requires m != nil && m.items != nil
+//@ modifies mapof(m.items)
+//@ ensures[C16.map.set.dom] forallT(k, string, mhas(m, k) == (k == key || old(mhas(m, k))))
+//@ ensures[C16.map.set.val] forallT(k, string, mhas(m, k) ==> mval(m, k) == ite(k == key, value, old(mval(m, k))))
+
+//@ func (*Map).Delete
+//@ props C16
+//@ requires m != nil
+//@ modifies mapof(m.items)
+//@ ensures[C16.map.delete.dom] forallT(k, string, mhas(m, k) == (k != key && old(mhas(m, k))))
+//@ ensures[C16.map.delete.val] forallT(k, string, mhas(m, k) ==> mval(m, k) == old(mval(m, k)))
+
+//@ func (*Map).Pop
+//@ props C16
+//@ requires m != nil
+//@ modifies mapof(m.items)
+//@ ensures[C16.map.pop.res] result == ite(old(mhas(m, key)), old(mval(m, key)), ite(def != nil, def, Nil))
+//@ ensures[C16.map.pop.dom] forallT(k, string, mhas(m, k) == (k != key && old(mhas(m, k))))
+//@ ensures[C16.map.pop.val] forallT(k, string, mhas(m, k) ==> mval(m, k) == old(mval(m, k)))
+
+//@ func (*Map).SetDefault
+//@ props C16
+//@ requires m != nil && m.items != nil
+//@ modifies mapof(m.items)
+//@ ensures[C16.map.setdefault.res] result == ite(old(mhas(m, key)), old(mval(m, key)), value)
+//@ ensures[C16.map.setdefault.dom] forallT(k, string, mhas(m, k) == (k == key || old(mhas(m, k))))
+//@ ensures[C16.map.setdefault.val] forallT(k, string, mhas(m, k) ==> mval(m, k) == ite(k == key && !old(mhas(m, key)), value, old(mval(m, k))))
+
+//@ func (*Map).Update
+//@ props C16 C05
+//@ commute 1
+//@ requires m != nil && m.items != nil && other != nil
+//@ modifies mapof(m.items)
+//@ invariant 1: forallT(k, string, mhas(m, k) == (old(mhas(m, k)) || (seen(k) && old(mhas(other, k))))) && forallT(k, string, mhas(m, k) ==> mval(m, k) == ite(seen(k) && old(mhas(other, k)), old(mval(other, k)), old(mval(m, k)))) && (m.items != other.items ==> forallT(k, string, mhas(other, k) == old(mhas(other, k)) && mval(other, k) == old(mval(other, k))))
+//@ ensures[C16.map.update.dom] m.items != other.items ==> forallT(k, string, mhas(m, k) == (old(mhas(m, k)) || old(mhas(other, k))))
+//@ ensures[C16.map.update.val] m.items != other.items ==> forallT(k, string, mhas(m, k) ==> mval(m, k) == ite(old(mhas(other, k)), old(mval(other, k)), old(mval(m, k))))
+
+//@ func (*Map).Copy
+//@ props C16 C05
+//@ commute 1
+//@ requires m != nil
+//@ modifies nothing
+//@ invariant 1: fresh(items) && forallT(k, string, haskey(items, k) == (seen(k) && mhas(m, k))) && forallT(k, string, haskey(items, k) ==> items[k] == mval(m, k))
+//@ ensures[C16.map.copy.fresh] result != nil && fresh(result) && fresh(result.items) && result.items != m.items
+//@ ensures[C16.map.copy.dom] forallT(k, string, mhas(result, k) == mhas(m, k))
+//@ ensures[C16.map.copy.val] forallT(k, string, mhas(m, k) ==> mval(result, k) == mval(m, k))
+
+//@ func (*Map).Clear
+//@ props C16
+//@ requires m != nil
+//@ modifies m.items
+//@ ensures[C16.map.clear] forallT(k, string, !mhas(m, k))
+
+// goTypeRegistry / typeConverters: guarded by goTypeMutex (guard obligations in contracts_c05_verif.go).
+//@ scan[C09.globals.object] C09 pkgglobals github.com/risor-io/risor/object: goTypeRegistry<-newGoType typeConverters<-SetTypeConverter typeConverters<-createTypeConverter
+
+// ---- C16: slice bounds --------------------------------------------------------------------------------------------
+// ResolveIntSlice: negative bounds count from the end; the accepted range is 0 <= start <= stop <= size with
+// start < size (an empty slice at the very end is rejected); everything else is an error, never a clamp.
+//@ func ResolveIntSlice
+//@ props C16
+//@ safety
+//@ requires size >= 0
+//@ assume[slice.bounds.wf] (slice.Start != nil ==> ref(slice.Start) != nil) && (slice.Stop != nil ==> ref(slice.Stop) != nil)
+//@ modifies nothing
+//@ let s0 = ite(slice.Start == nil, 0, slice.Start.(*Int).value)
+//@ let e0 = ite(slice.Stop == nil, size, slice.Stop.(*Int).value)
+//@ let ns = ite(s0 < 0, size + s0, s0)
+//@ let ne = ite(e0 < 0, size + e0, e0)
+//@ let typed = (slice.Start == nil || typeof(slice.Start) == *Int) && (slice.Stop == nil || typeof(slice.Stop) == *Int)
+//@ ensures[C16.slice.ok] typed ==> (err == nil) == (0 <= ns && 0 <= ne && ns <= ne && ns <= size - 1 && ne <= size)
+//@ ensures[C16.slice.value] err == nil ==> typed && start == ns && stop == ne && 0 <= start && start <= stop && stop <= size
+//@ ensures[C16.slice.type] !typed ==> err != nil
+
+// List.GetSlice: a fresh list holding exactly the elements of the resolved range, in order; the original is not touched.
+//@ func (*List).GetSlice
+//@ props C16
+//@ safety
+//@ requires ls != nil
+//@ modifies nothing
+//@ ensures[C16.getslice.copy] result1 == nil ==> typeof(result0) == *List && ref(result0) != nil && fresh(result0) && fresh(result0.(*List).items) && exists(a, 0, len(ls.items) + 1, exists(b, a, len(ls.items) + 1, len(result0.(*List).items) == b - a && forall(k, 0, b - a, result0.(*List).items[k] == ls.items[a + k])))
+//@ ensures[C16.getslice.err] result1 != nil ==> result0 == nil
